@@ -117,6 +117,21 @@ sim::Json generate(const std::string& tier, uint64_t seed, uint64_t index) {
   sc.set("points_seed", (double)rng.below(1000000));
   sc.set("capi", rng.chance(0.35));       // build the model and drive the solver through the C flavour of the same API (api/c/*.h)
   sc.set("sens", rng.chance(0.5));        // ask for sensitivity ranges: real-valued variable and constraint suffixes come back
+  // history: in 35 % of the scenarios the same NLSolver object, the same PreprocessData and the same file stub have already
+  // served another model (other size, other column classes, names and suffixes of its own)
+  if (rng.chance(0.35)) {
+    sim::Json pv = sim::Json::object();
+    int pn = (int)rng.range(1, 10), pm = (int)rng.range(0, 7);
+    std::vector<double> plb(pn), pub(pn), pty(pn);
+    for (int j = 0; j < pn; ++j) { pty[j] = rng.chance(0.5); plb[j] = 0; pub[j] = pty[j] && rng.chance(0.5) ? 1 : (double)rng.range(2, 9); }
+    pv.set("lb", jarr(plb)); pv.set("ub", jarr(pub)); pv.set("type", jarr(pty));
+    pv.set("m", pm);
+    pv.set("names", rng.chance(0.6));
+    pv.set("quad", rng.chance(0.3));
+    pv.set("suffix", rng.chance(0.5));
+    pv.set("mode", (long)rng.range(1, 2));     // 1: written and loaded only; 2: also solved and its solution read
+    sc.set("prev", pv);
+  }
   sim::Json script = sim::Json::object();
   static const int codes[] = {0, 0, 0, 100, 200, 400};
   script.set("status", codes[rng.below(6)]);
@@ -202,6 +217,23 @@ sim::RunResult run(const sim::Json& sc) {
     return v;
   };
 
+  // ---- the earlier model of the history, if any
+  const bool has_prev = sc.has("prev");
+  std::vector<double> plb, pub, prlb, prub, pc, pav, pqv, psuf; std::vector<int> pty, pai, pqi; std::vector<size_t> pas, pqs;
+  std::vector<std::string> pcn, prn; std::vector<const char*> pcnp, prnp;
+  int pn = 0, pm = 0;
+  if (has_prev) {
+    const sim::Json& pv = sc["prev"];
+    plb = dvec(pv["lb"]); pub = dvec(pv["ub"]); for (double d : dvec(pv["type"])) pty.push_back((int)d);
+    pn = (int)plb.size(); pm = (int)pv["m"].as_int();
+    for (int i = 0; i < pm; ++i) { pas.push_back(pai.size()); pai.push_back(i % pn); pav.push_back(9000.0 + i); if (pn > 1) { pai.push_back((i + 1) % pn); pav.push_back(-9100.0 - i); } prlb.push_back(-50.0 - i); prub.push_back(60.0 + i); }
+    for (int j = 0; j < pn; ++j) { pc.push_back(3.0 + j); pcn.push_back("pcol" + std::to_string(j + 1)); psuf.push_back(900.0 + j); }
+    for (int i = 0; i < pm; ++i) prn.push_back("prow" + std::to_string(i + 1));
+    for (auto& q : pcn) pcnp.push_back(q.c_str());
+    for (auto& q : prn) prnp.push_back(q.c_str());
+    for (int j = 0; j < pn; ++j) { pqs.push_back(pqi.size()); if (j % 2 == 0) { pqi.push_back((j + 1) % pn); pqv.push_back(4.0 + j); } }
+  }
+
   g.reset(); sim::shim_reset();
   g.scratch = sim::scratch_dir();
   sim::clean_scratch();
@@ -262,9 +294,38 @@ sim::RunResult run(const sim::Json& sc) {
       NLW2_NLOptionsBasic_C opts = NLW2_MakeNLOptionsBasic_C_Default();
       opts.n_text_mode_ = sc["text"].as_bool(); opts.want_nl_comments_ = sc["comments"].as_bool();
       mp::NLUtils utils;
+      // the earlier model, built through the same flavour of the API
+      mp::NLModel prev_cpp("c08prev");
+      NLW2_NLModel_C pcm{};
+      if (has_prev) {
+        const sim::Json& pv = sc["prev"];
+        if (!capi) {
+          prev_cpp.SetCols({pn, plb.data(), pub.data(), pty.data()});
+          if (pv["names"].as_bool()) prev_cpp.SetColNames(pcnp.data());
+          prev_cpp.SetRows(pm, prlb.data(), prub.data(), {pm, NLW2_MatrixFormatRowwise, pai.size(), pas.data(), pai.data(), pav.data()});
+          if (pv["names"].as_bool() && pm) prev_cpp.SetRowNames(prnp.data());
+          prev_cpp.SetLinearObjective(NLW2_ObjSenseMinimize, 1.5, pc.data());
+          if (pv["quad"].as_bool() && !pqi.empty()) prev_cpp.SetHessian(NLW2_HessianFormatSquare, {pn, NLW2_MatrixFormatIrrelevant, pqi.size(), pqs.data(), pqi.data(), pqv.data()});
+          if (pv["names"].as_bool()) prev_cpp.SetObjName("prevobj");
+          if (pv["suffix"].as_bool()) { prev_cpp.AddSuffix(mp::NLSuffix("priority", 0, psuf)); prev_cpp.AddSuffix(mp::NLSuffix("prevonly", 0, psuf)); }
+        } else {
+          pcm = NLW2_MakeNLModel_C("c08prev");
+          NLW2_SetCols_C(&pcm, pn, plb.data(), pub.data(), pty.data());
+          if (pv["names"].as_bool()) NLW2_SetColNames_C(&pcm, pcnp.data());
+          NLW2_SetRows_C(&pcm, pm, prlb.data(), prub.data(), NLW2_MatrixFormatRowwise, pai.size(), pas.data(), pai.data(), pav.data());
+          if (pv["names"].as_bool() && pm) NLW2_SetRowNames_C(&pcm, prnp.data());
+          NLW2_SetLinearObjective_C(&pcm, NLW2_ObjSenseMinimize, 1.5, pc.data());
+          if (pv["quad"].as_bool() && !pqi.empty()) NLW2_SetHessian_C(&pcm, NLW2_HessianFormatSquare, pn, pqi.size(), pqs.data(), pqi.data(), pqv.data());
+          if (pv["names"].as_bool()) NLW2_SetObjName_C(&pcm, "prevobj");
+          if (pv["suffix"].as_bool()) { NLW2_NLSuffix_C sf; sf.name_ = "priority"; sf.table_ = ""; sf.kind_ = 0; sf.numval_ = pn; sf.values_ = psuf.data(); NLW2_AddSuffix_C(&pcm, sf); sf.name_ = "prevonly"; NLW2_AddSuffix_C(&pcm, sf); }
+        }
+        r.stats.set("history.prev_model", 1);
+      }
+      mp::NLModel& prev = capi && has_prev ? *static_cast<mp::NLModel*>(pcm.p_data_) : prev_cpp;
       // ---- (a) write, then read the files back with mp's NL reader
       mp::NLModel::PreprocessData pd;
-      err_a = mdl.WriteNL(g.scratch + "a", opts, utils, pd);
+      if (has_prev) { std::string e0 = prev.WriteNL(g.scratch + "a", opts, utils, pd); if (!e0.empty()) err_a = "earlier model: " + e0; }   // same stub, same PreprocessData
+      if (err_a.empty()) err_a = mdl.WriteNL(g.scratch + "a", opts, utils, pd);
       vperm = pd.vperm_; vperm_inv = pd.vperm_inv_;
       if (err_a.empty()) {
         mp::Problem P;
@@ -361,7 +422,12 @@ sim::RunResult run(const sim::Json& sc) {
               if (got != vals[k]) flag("WRONG_SUFFIX", ik == 0 ? "var" : ik == 1 ? "con" : "other", "suffix " + s["name"].as_str() + " of item " + std::to_string(k) + " read back as " + gen::fmt_double(got) + ", given " + gen::fmt_double(vals[k]));
             }
           }
-          // names
+          // names: a model without names leaves no name files behind, whatever was written to the stub before
+          if (!names && viol.empty()) {
+            std::string tmp;
+            if (sim::read_file(g.scratch + "a.col", tmp) && !tmp.empty()) flag("STALE_NAMES", "col", "the model has no column names but a.col exists after WriteNL: " + tmp.substr(0, 60));
+            if (sim::read_file(g.scratch + "a.row", tmp) && !tmp.empty()) flag("STALE_NAMES", "row", "the model has no row names but a.row exists after WriteNL: " + tmp.substr(0, 60));
+          }
           if (names && viol.empty()) {
             std::string col, row;
             sim::read_file(g.scratch + "a.col", col); sim::read_file(g.scratch + "a.row", row);
@@ -380,7 +446,13 @@ sim::RunResult run(const sim::Json& sc) {
         mp::NLSolver nls(&utils);
         nls.SetFileStub(g.scratch + "stub");
         nls.SetNLOptions(opts);
-        if (!nls.LoadModel(static_cast<const mp::NLModel&>(mdl))) err_b = std::string("LoadModel: ") + nls.GetErrorMessage();
+        if (has_prev) {
+          if (!nls.LoadModel(static_cast<const mp::NLModel&>(prev))) err_b = std::string("LoadModel(earlier): ") + nls.GetErrorMessage();
+          else if (sc["prev"]["mode"].as_int() == 2) { if (nls.Solve("simdrv", drv_opts)) { mp::NLSolution s0 = nls.ReadSolution(); (void)s0; } }
+          g_stub.clear();
+        }
+        if (!err_b.empty()) {}
+        else if (!nls.LoadModel(static_cast<const mp::NLModel&>(mdl))) err_b = std::string("LoadModel: ") + nls.GetErrorMessage();
         else if (!nls.Solve("simdrv", drv_opts)) err_b = std::string("Solve: ") + nls.GetErrorMessage();
         else { sol = nls.ReadSolution(); solved = true; if (!sol) err_b = std::string("ReadSolution: ") + nls.GetErrorMessage(); }
       } else {
@@ -388,7 +460,13 @@ sim::RunResult run(const sim::Json& sc) {
         NLW2_NLSolver_C cs = NLW2_MakeNLSolver_C(&cu);
         NLW2_SetFileStub_C(&cs, (g.scratch + "stub").c_str());
         NLW2_SetNLOptions_C(&cs, opts);
-        if (!NLW2_LoadNLModel_C(&cs, &cm)) err_b = std::string("LoadModel: ") + NLW2_GetErrorMessage_C(&cs);
+        if (has_prev) {
+          if (!NLW2_LoadNLModel_C(&cs, &pcm)) err_b = std::string("LoadModel(earlier): ") + NLW2_GetErrorMessage_C(&cs);
+          else if (sc["prev"]["mode"].as_int() == 2) { if (NLW2_RunSolver_C(&cs, "simdrv", drv_opts)) { NLW2_NLSolution_C s0 = NLW2_ReadSolution_C(&cs); (void)s0; } }
+          g_stub.clear();
+        }
+        if (!err_b.empty()) {}
+        else if (!NLW2_LoadNLModel_C(&cs, &cm)) err_b = std::string("LoadModel: ") + NLW2_GetErrorMessage_C(&cs);
         else if (!NLW2_RunSolver_C(&cs, "simdrv", drv_opts)) err_b = std::string("Solve: ") + NLW2_GetErrorMessage_C(&cs);
         else {
           NLW2_NLSolution_C cs_sol = NLW2_ReadSolution_C(&cs);
@@ -408,6 +486,7 @@ sim::RunResult run(const sim::Json& sc) {
         NLW2_DestroyNLUtils_C_Default(&cu);
       }
       if (capi) NLW2_DestroyNLModel_C(&cm);
+      if (capi && has_prev) NLW2_DestroyNLModel_C(&pcm);
     } catch (const std::exception& e) { exc = e.what(); }
     catch (...) { exc = "non-std exception"; }
   } else exited = true;
